@@ -9,6 +9,7 @@ import (
 // PacketStore is a goroutine safe packet store.
 type PacketStore struct {
 	packets map[packet.ID]packet.Generic
+	order   []packet.ID
 	mutex   sync.RWMutex
 }
 
@@ -42,6 +43,11 @@ func (s *PacketStore) Save(pkt packet.Generic) {
 
 	id, ok := packet.GetID(pkt)
 	if ok {
+		// remember the order in which the ids have been saved
+		if _, exists := s.packets[id]; !exists {
+			s.order = append(s.order, id)
+		}
+
 		s.packets[id] = pkt
 	}
 }
@@ -61,7 +67,18 @@ func (s *PacketStore) Delete(id packet.ID) {
 	defer s.mutex.Unlock()
 
 	// delete packet
+	if _, exists := s.packets[id]; !exists {
+		return
+	}
+
 	delete(s.packets, id)
+
+	for i, oid := range s.order {
+		if oid == id {
+			s.order = append(s.order[:i], s.order[i+1:]...)
+			break
+		}
+	}
 }
 
 // All will return all packets currently saved in the store.
@@ -71,8 +88,8 @@ func (s *PacketStore) All() []packet.Generic {
 
 	// collect packets
 	var all []packet.Generic
-	for _, pkt := range s.packets {
-		all = append(all, pkt)
+	for _, id := range s.order {
+		all = append(all, s.packets[id])
 	}
 
 	return all
@@ -85,4 +102,5 @@ func (s *PacketStore) Reset() {
 
 	// reset packets
 	s.packets = make(map[packet.ID]packet.Generic)
+	s.order = nil
 }
